@@ -32,8 +32,15 @@ func (P *extPoint) getXY() (x, y *mod.Int) {
 	return &P.X, &P.Y
 }
 
+// normalized returns a normalized copy of P. Encoding, printing and data
+// extraction work on it so that they never write to a (possibly shared) point.
+func (P *extPoint) normalized() *extPoint {
+	Q := P.Clone().(*extPoint) //nolint:errcheck // Clone returns an *extPoint
+	Q.normalize()
+	return Q
+}
+
 func (P *extPoint) String() string {
-	P.normalize()
 	buf, _ := P.MarshalBinary()
 	return hex.EncodeToString(buf)
 }
@@ -43,8 +50,8 @@ func (P *extPoint) MarshalSize() int {
 }
 
 func (P *extPoint) MarshalBinary() ([]byte, error) {
-	P.normalize()
-	return P.c.encodePoint(&P.X, &P.Y), nil
+	Q := P.normalized()
+	return Q.c.encodePoint(&Q.X, &Q.Y), nil
 }
 
 func (P *extPoint) UnmarshalBinary(b []byte) error {
@@ -143,8 +150,8 @@ func (P *extPoint) Pick(rand cipher.Stream) kyber.Point {
 
 // Extract embedded data from a point group element
 func (P *extPoint) Data() ([]byte, error) {
-	P.normalize()
-	return P.c.data(&P.X, &P.Y)
+	Q := P.normalized()
+	return Q.c.data(&Q.X, &Q.Y)
 }
 
 // Add two points using optimized extended coordinate addition formulas.
